@@ -7,4 +7,7 @@ open Distill.Gen
 theorem fam4_cells : ∀ c ∈ allCells, cellOk fam4 c.1 c.2 = true := by
   decide +kernel
 
+theorem fam4_bare : ∀ n ∈ allN, bareOk fam4 n = true := by
+  decide +kernel
+
 end Distill.C17
